@@ -692,18 +692,18 @@ class ObjectType(VersionedOntologyElement):
                 type_element.attrib['data-type'],
                 type_element.get('unit-name'),
                 type_element.get('unit-symbol'),
-                type_element.get('prefix-radix'),
+                int(type_element.get('prefix-radix')) if type_element.get('prefix-radix') is not None else None,
                 type_element.get('compress', 'false') == 'true',
                 type_element.get('xref'),
                 type_element.get('fuzzy-matching'),
                 type_element.get('regex-hard'),
                 type_element.get('regex-soft')
             ).set_version(type_element.attrib['version'])
-        except KeyError as e:
+        except (KeyError, ValueError) as e:
             raise EDXMLOntologyValidationError(
                 "Failed to instantiate an object type from the following definition:\n" +
                 etree.tostring(type_element, pretty_print=True, encoding='unicode') +
-                "\nMissing attribute: " + str(e)
+                "\nMissing attribute or illegal value: " + str(e)
             )
 
     def __cmp__(self, other):
@@ -827,7 +827,7 @@ class ObjectType(VersionedOntologyElement):
         if attribs['fuzzy-matching'] is None:
             del attribs['fuzzy-matching']
 
-        if attribs['prefix-radix'] in (None, 10):
+        if attribs['prefix-radix'] is None:
             del attribs['prefix-radix']
         else:
             attribs['prefix-radix'] = str(attribs['prefix-radix'])
